@@ -416,8 +416,10 @@ def explore(ctx, res):
             if any(o not in ("ok", "none", "0", "empty", "cancelled", "err:closed", "unsupported") for o in outs):
                 nontriv.add((backend, tuple(s)))
             if why:
+                small = shrink(backend, s, ctx)
+                rc_, souts, _ = core.run_lines(os.path.join(core.BUILD, "verifh"), ["store", backend], small)
                 res.add_violation({"engine": "store", "backend": backend, "kind": "impl-violates",
-                                   "ops": shrink(backend, s, ctx), "oracle": why, "observed": outs})
+                                   "ops": small, "oracle": oracle_seq(backend, small, souts) or why, "observed": souts})
                 res.cov.update(evaluations=total)
                 return finish(res, total, nontriv, dist, samples, validated)
             if model is not None and not diverged:
